@@ -532,8 +532,11 @@ func (r *run) checkLocalResult(lc *localCall, st capnp.Struct, err error) {
 
 func (r *run) idleHook(s *simrt.Sched) bool {
 	// release one slow application call (oldest first) so that everything can finish
+	// (but not a call the peer made once the application has called Close: cancelling that one is
+	// the Conn's job, and helping here is what hid a seeded change that detached incoming calls
+	// from the connection's context)
 	for _, ac := range r.started {
-		if ac.waiting && !ac.release {
+		if ac.waiting && !ac.release && !(r.closed && r.locals[ac.token] == nil) {
 			ac.release = true
 			s.Fault("app_release")
 			return true
